@@ -219,7 +219,7 @@ theorem split_border {dt kind rid' rid : String} {p s e : Int} {rows : List Row}
     (⟨dt, kind, none, p, e, rows, none, [⟨rid', p, p⟩, ⟨rid, s, e⟩], tg⟩ : Chunk).split e true = .ok
       (⟨dt, kind, some rid', p, e, rows, none, [⟨rid, s, e⟩], tg⟩,
        ⟨dt, kind, some rid, e, e, [], none, [⟨rid, e, e⟩], tg⟩) := by
-  rw [Chunk.split_eq]
+  rw [Chunk.split_eq (Chunk.not_bad_of_subruns_none rfl)]
   have hv : splitData (⟨dt, kind, none, p, e, rows, none, [⟨rid', p, p⟩, ⟨rid, s, e⟩], tg⟩ : Chunk) e true
       = .ok (rows, [], e) := by
     have : max e p = e := by omega
